@@ -56,6 +56,8 @@ TICK = 0.1
 # * result.group(2) will be defined if '##' found
 #
 RE_NC11_DELIM = re.compile(br'\n(?:#([0-9]+)|(##))\n')
+# what the first octets of such a delimiter look like while it is incomplete
+RE_NC11_DELIM_PREFIX = re.compile(br'\n(?:#(?:[0-9]+|#)?)?')
 
 def textify(buf):
     return buf.decode('UTF-8')
@@ -172,21 +174,18 @@ class DefaultXMLParser:
             re_result = RE_NC11_DELIM.match(data[start:])
             if not re_result:
 
-                # not found any kind of delimiter just break; this should only
-                # ever happen if we just have the first few characters of a
-                # message such that we don't yet have a full delimiter
+                # no delimiter at the head of the buffer: fine if we just have
+                # the first few octets of one (wait for more data); anything
+                # else can never become a delimiter, so throw an error
+                if not RE_NC11_DELIM_PREFIX.fullmatch(data[start:]):
+                    raise NetconfFramingError('_parse11: delimiter not at start of match buffer', data[start:])
                 self.logger.debug('_parse11: no delimiter found, buffer=%r', data[start:])
                 break
 
-            # save useful variables for reuse
+            # save useful variables for reuse (match() is anchored: re_start is 0)
             re_start = re_result.start()
             re_end = re_result.end()
             self.logger.debug('_parse11: regular expression start=%d, end=%d', re_start, re_end)
-
-            # If the regex doesn't start at the beginning of the buffer,
-            # we're in trouble, so throw an error
-            if re_start != 0:
-                raise NetconfFramingError('_parse11: delimiter not at start of match buffer', data[start:])
 
             if re_result.group(2):
                 # we've found the end of the message, need to form up
